@@ -403,6 +403,8 @@ impl KeyValueStore {
             let _state = self.state.lock().unwrap();
             drop(wait_guard);
             self.wait_list.notify_head();
+            #[cfg(rescrv_blue_verif)]
+            crate::verif::sched(crate::verif::SchedEvent::NotifiedHead);
             return Err(err);
         }
         drop(memtable);
